@@ -1,51 +1,65 @@
 (* C02, collected: for every improving algorithm the statement of C02 about
-   THAT algorithm's model, derived from the theorems of the algorithm's own
-   development (C14 VnBest/VnFirst, C07 FiducciaMattheyses, C15 KernighanLin,
-   C05 ArcSwap).  Projections plus glue; one Module per algorithm so that the
-   developments are imported side by side without name clashes. *)
+   THAT algorithm's model, derived from the PROPERTY THEOREMS of the algorithm's
+   own development (Properties/C14 VnBest/VnFirst, C07 FiducciaMattheyses, C15
+   KernighanLin, C05 ArcSwap).
+
+   Maintenance rule (as in C01Collect.v): a lemma here may use the theorems
+   [Cxx_...] and instantiated models of the other Properties files by their
+   qualified names, definitions of Model/*.v, and the predicates those theorems
+   are stated with; no lemma from the Proofs/*.v of another development.  The
+   single exception is marked EXCEPTION below (VnBest never answers an
+   in-contract input with an error value).  One Module per algorithm. *)
 From Coupe Require Import Lib.Prelude Lib.SFloat.
 From Coq Require Import Floats.SpecFloat Permutation.
 From Coupe Require Lib.Graph.
-From Coupe Require Model.NumPart Model.Vn Proofs.NumPartLemmas Proofs.VnBestProofs Proofs.VnFirstProofs.
-From Coupe Require Model.Fm Proofs.FmProofs Proofs.FmNoPanic.
-From Coupe Require Model.Kl Proofs.KlProofs Gen.KlGen.
-From Coupe Require Model.ArcSwap Proofs.ArcSwapAcct Proofs.ArcSwapProgress Proofs.ArcSwapTerm Proofs.ArcSwapSafe.
+From Coupe Require Properties.C14 Properties.C07 Properties.C15 Properties.C05.
+
 
 (* --------------------------------------------------------- VnBest, VnFirst *)
 Module VnC.
-  Import Coupe.Model.NumPart Coupe.Model.Vn Coupe.Proofs.NumPartLemmas
-         Coupe.Proofs.VnBestProofs Coupe.Proofs.VnFirstProofs.
+  Import Coupe.Model.NumPart Coupe.Model.Vn.
   Open Scope Z_scope.
 
-  (* the scan for the nearest weight never produces an error value *)
-  Lemma nearest_no_err crit p over t2 : forall f a b e, nearest f crit p over t2 a b <> Err e.
+  (* whatever the input: never a panic, never out of fuel, and an Ok result is valid *)
+  Lemma vnbest_any_input : forall flt ws p,
+    (forall s, vn_best flt ws p <> Panic s) /\ vn_best flt ws p <> OutOfFuel
+    /\ (forall p' n, vn_best flt ws p = Ok (p', n) ->
+          length p' = length p /\ Forall (fun x => (x <= maxN p)%N) p').
   Proof.
-    induction f as [|f IH]; intros a b e H; cbn [nearest] in H; [discriminate|].
-    destruct a as [a|], b as [b|]; cbv beta iota zeta in H.
-    - destruct (nth_opt crit a) as [ca|]; [|discriminate]. destruct (nth_opt crit b) as [cb|]; [|discriminate].
-      destruct (2 * fst ca - t2 <? t2 - 2 * fst cb); cbv beta iota zeta in H.
-      + destruct (nth_opt crit a) as [cc|]; [|discriminate]. destruct (nth_opt p (snd cc)); [|discriminate].
-        destruct (_ =? over)%N; [discriminate|]. exact (IH _ _ _ H).
-      + destruct (nth_opt crit b) as [cc|]; [|discriminate]. destruct (nth_opt p (snd cc)); [|discriminate].
-        destruct (_ =? over)%N; [discriminate|]. exact (IH _ _ _ H).
-    - destruct (nth_opt crit a) as [cc|]; [|discriminate]. destruct (nth_opt p (snd cc)); [|discriminate].
-      destruct (_ =? over)%N; [discriminate|]. exact (IH _ _ _ H).
-    - destruct (nth_opt crit b) as [cc|]; [|discriminate]. destruct (nth_opt p (snd cc)); [|discriminate].
-      destruct (_ =? over)%N; [discriminate|]. exact (IH _ _ _ H).
-    - discriminate.
+    intros flt ws p. split; [intros s; apply C14.C14_vnbest_no_panic|]. split; [apply C14.C14_vnbest_terminates|].
+    intros p' n E. pose proof (C14.C14_vnbest_gap flt ws p p' n E) as G. cbv zeta in G. destruct G as (A & B & _).
+    split; assumption.
   Qed.
 
-  (* under the contract VnBest returns Ok (no error, no panic, within its fuel),
-     keeps the length and writes no id above the input's maximum *)
-  Lemma vnbest_collect : forall flt ws p, length ws = length p -> Forall (fun w => 0 <= w) ws ->
-    exists p' n, vn_best flt ws p = Ok (p', n)
-      /\ length p' = length p /\ Forall (fun x => (x <= maxN p)%N) p'.
-  Proof.
-    intros flt ws p Hl Hnn.
-    destruct (vn_best flt ws p) as [[p' n]|e|s|] eqn:E.
-    - exists p', n. split; [reflexivity|].
-      pose proof (vnbest_gap flt ws p p' n E) as G. cbv zeta in G. destruct G as (A & B & _). split; assumption.
-    - exfalso.
+  (* EXCEPTION to the maintenance rule: "an in-contract input is never answered
+     by an error value" is not a property theorem of C14 (it states when the two
+     errors DO occur); it is read off the model through VnBestProofs.vn_best_inv
+     and the loop lemmas of NumPartLemmas.  If this breaks: [vnbest_any_input]
+     above is the statement that needs nothing but C14. *)
+  Module Exc.
+    Import Coupe.Proofs.NumPartLemmas Coupe.Proofs.VnBestProofs.
+
+    Lemma nearest_no_err crit p over t2 : forall f a b e, nearest f crit p over t2 a b <> Err e.
+    Proof.
+      induction f as [|f IH]; intros a b e H; cbn [nearest] in H; [discriminate|].
+      destruct a as [a|], b as [b|]; cbv beta iota zeta in H.
+      - destruct (nth_opt crit a) as [ca|]; [|discriminate]. destruct (nth_opt crit b) as [cb|]; [|discriminate].
+        destruct (2 * fst ca - t2 <? t2 - 2 * fst cb); cbv beta iota zeta in H.
+        + destruct (nth_opt crit a) as [cc|]; [|discriminate]. destruct (nth_opt p (snd cc)); [|discriminate].
+          destruct (_ =? over)%N; [discriminate|]. exact (IH _ _ _ H).
+        + destruct (nth_opt crit b) as [cc|]; [|discriminate]. destruct (nth_opt p (snd cc)); [|discriminate].
+          destruct (_ =? over)%N; [discriminate|]. exact (IH _ _ _ H).
+      - destruct (nth_opt crit a) as [cc|]; [|discriminate]. destruct (nth_opt p (snd cc)); [|discriminate].
+        destruct (_ =? over)%N; [discriminate|]. exact (IH _ _ _ H).
+      - destruct (nth_opt crit b) as [cc|]; [|discriminate]. destruct (nth_opt p (snd cc)); [|discriminate].
+        destruct (_ =? over)%N; [discriminate|]. exact (IH _ _ _ H).
+      - discriminate.
+    Qed.
+
+    Lemma vnbest_no_error : forall flt ws p e, length ws = length p -> Forall (fun w => 0 <= w) ws ->
+      vn_best flt ws p <> Err e.
+    Proof.
+      intros flt ws p e Hl Hnn E.
       destruct (vn_best_inv _ _ _ _ E) as [[C _]|[[_ [C _]]|[_ [_ [C|[Hk C]]]]]];
         [contradiction|contradiction|discriminate|].
       rewrite iter_pos_nat in C.
@@ -61,34 +75,36 @@ Module VnC.
         destruct (_ || _); [discriminate|]. destruct (Nat.ltb id (length p1)); [|discriminate].
         destruct (nth_opt _ under); discriminate.
       + exact (nearest_no_err _ _ _ _ _ _ _ _ En).
-    - exfalso. exact (vnbest_no_panic flt ws p s E).
-    - exfalso. exact (vnbest_terminates flt ws p E).
-  Qed.
+    Qed.
+  End Exc.
 
-  (* whatever the input: never a panic, never out of fuel, and an Ok result is valid *)
-  Lemma vnbest_any_input : forall flt ws p,
-    (forall s, vn_best flt ws p <> Panic s) /\ vn_best flt ws p <> OutOfFuel
-    /\ (forall p' n, vn_best flt ws p = Ok (p', n) ->
-          length p' = length p /\ Forall (fun x => (x <= maxN p)%N) p').
+  (* under the contract VnBest returns Ok, keeps the length and writes no id
+     above the input's maximum *)
+  Lemma vnbest_collect : forall flt ws p, length ws = length p -> Forall (fun w => 0 <= w) ws ->
+    exists p' n, vn_best flt ws p = Ok (p', n)
+      /\ length p' = length p /\ Forall (fun x => (x <= maxN p)%N) p'.
   Proof.
-    intros flt ws p. split; [intros s; apply vnbest_no_panic|]. split; [apply vnbest_terminates|].
-    intros p' n E. pose proof (vnbest_gap flt ws p p' n E) as G. cbv zeta in G. destruct G as (A & B & _).
-    split; assumption.
+    intros flt ws p Hl Hnn. destruct (vnbest_any_input flt ws p) as (NP & NF & V).
+    destruct (vn_best flt ws p) as [[p' n]|e|s|] eqn:E.
+    - exists p', n. split; [reflexivity|]. exact (V p' n eq_refl).
+    - exfalso. exact (Exc.vnbest_no_error flt ws p e Hl Hnn E).
+    - exfalso. exact (NP s eq_refl).
+    - exfalso. exact (NF eq_refl).
   Qed.
 
   Lemma vnfirst_collect : forall ws p, Forall (fun w => 0 <= w) ws -> length ws = length p ->
     exists p' n, vn_first ws p = Ok (p', n)
       /\ length p' = length p /\ Forall (fun x => (x <= maxN p)%N) p'.
   Proof.
-    intros ws p Hnn Hl. destruct (vnfirst_spec ws p Hnn Hl) as (p' & n & E & _).
+    intros ws p Hnn Hl. destruct (C14.C14_vnfirst_total ws p Hnn Hl) as (p' & n & E & _).
     exists p', n. split; [exact E|].
-    pose proof (vnfirst_gap ws p p' n Hnn E) as G. cbv zeta in G. destruct G as (A & B & _). split; assumption.
+    pose proof (C14.C14_vnfirst_gap ws p p' n Hnn E) as G. cbv zeta in G. destruct G as (A & B & _). split; assumption.
   Qed.
 End VnC.
 
 (* ------------------------------------------------------ FiducciaMattheyses *)
 Module FmC.
-  Import Coupe.Lib.Graph Coupe.Model.Fm Coupe.Proofs.FmProofs Coupe.Proofs.FmNoPanic.
+  Import Coupe.Lib.Graph Coupe.Model.Fm Coupe.Proofs.FmProofs.   (* FmProofs: fm_contract only *)
   Open Scope Z_scope.
 
   (* for EVERY oracle (iteration order of the gain buckets): no panic, no
@@ -103,24 +119,17 @@ Module FmC.
           length p = length p0 /\ Forall (fun x => (x <= 1)%N) p).
   Proof.
     intros cfg fuel g ws p0 orc cap Hc Hcap Hf.
-    split; [intros s; exact (fm_no_panic cfg fuel g ws p0 orc cap s Hc Hcap)|].
-    split; [exact (fm_terminates cfg fuel g ws p0 orc Hc Hf)|].
+    split; [intros s; exact (C07.C07_no_panic cfg fuel g ws p0 orc cap s Hc Hcap)|].
+    split; [exact (C07.C07_terminates cfg fuel g ws p0 orc Hc Hf)|].
     intros p mpp rpp E.
-    destruct (fm_sound cfg fuel g ws p0 orc cap p mpp rpp Hc Hcap E) as (A & B & _). split; [exact A|exact B].
+    destruct (C07.C07_sound cfg fuel g ws p0 orc cap p mpp rpp Hc Hcap E) as (A & B & _). split; [exact A|exact B].
   Qed.
 End FmC.
 
 (* ------------------------------------------------------------ KernighanLin *)
 Module KlC.
-  Import Coupe.Lib.Graph Coupe.Model.Kl Coupe.Proofs.KlProofs Coupe.Gen.KlGen.
+  Import Coupe.Lib.Graph Coupe.Model.Kl.
   Open Scope Z_scope.
-
-  (* as in Properties/C15.v *)
-  Definition kl_cfg_impl (mp mf : option N) (mb : N) : kl_cfg :=
-    {| max_passes := mp; max_flips := mf; max_bad := mb;
-       old_scan := kl_first_scan_unwraps; old_rewind := kl_rewind_keeps_first_swap;
-       few_ids_return := kl_few_ids_return |}.
-  Definition kl_impl mp mf mb := kl (kl_cfg_impl mp mf mb).
 
   Lemma count_pos_In x : forall p, (0 < count x p)%nat <-> In x p.
   Proof.
@@ -142,33 +151,57 @@ Module KlC.
     intros [->|H]; [lia|]. specialize (IH H). lia.
   Qed.
 
-  (* at most two part ids in use: Ok for every fuel >= kl_fuel, labels only permuted *)
-  Lemma kl_collect : forall mp mf mb fuel g wlen p,
-    wf_graph g (length p) -> nonneg_edges g -> (length p <= wlen)%nat ->
-    (length (uniq [] p) <= 2)%nat -> (kl_fuel g p <= fuel)%nat ->
-    exists q, kl_impl mp mf mb fuel g wlen p = Ok q
-      /\ length q = length p /\ same_sizes p q
-      /\ Forall (fun x => In x p) q /\ Forall (fun x => (x <= maxN p)%N) q.
+  (* what an Ok result satisfies: labels only permuted *)
+  Definition kl_valid (p q : list N) : Prop :=
+    length q = length p /\ same_sizes p q
+    /\ Forall (fun x => In x p) q /\ Forall (fun x => (x <= maxN p)%N) q.
+
+  Lemma sizes_valid p q : length q = length p -> same_sizes p q -> kl_valid p q.
   Proof.
-    intros mp mf mb fuel g wlen p Hw Hn Hwl Hu Hf. unfold kl_impl.
-    set (cfg := kl_cfg_impl mp mf mb).
-    destruct (kl cfg fuel g wlen p) as [q|e|s|] eqn:E.
-    - exists q. split; [reflexivity|]. destruct (kl_sizes _ _ _ _ _ _ E) as [L S].
-      split; [exact L|]. split; [exact S|]. pose proof (same_sizes_In p q S) as HI. split; [exact HI|].
-      rewrite Forall_forall in *. intros x Hx. apply maxN_ge, HI, Hx.
-    - exfalso. revert E. unfold kl.
-      destruct (uniq [] p) as [|u0 [|u1 [|? ?]]]; try discriminate; try (destruct (few_ids_return cfg); discriminate).
-      destruct (edge_cut_chk g p); [apply kl_passes_no_err|discriminate].
-    - exfalso. revert E. apply kl_no_panic; auto.
-    - exfalso. revert E. apply kl_terminates; auto.
+    intros L S. split; [exact L|]. split; [exact S|]. pose proof (same_sizes_In p q S) as HI. split; [exact HI|].
+    rewrite Forall_forall in *. intros x Hx. apply maxN_ge, HI, Hx.
+  Qed.
+
+  (* at most two part ids in use ([sp]: which edge_cut the topology type has):
+     Ok at the fuel kl_fuel (initial cut + 2 passes); for every larger fuel no
+     panic, no fuel exhaustion, and an Ok result is valid *)
+  Lemma kl_collect : forall sp mp mf mb g wlen p,
+    wf_graph g (length p) -> (sp = true -> rows_sorted g) -> nonneg_edges g -> (length p <= wlen)%nat ->
+    (length (uniq [] p) <= 2)%nat ->
+    (exists q, C15.kl_impl sp mp mf mb (kl_fuel sp g p) g wlen p = Ok q /\ kl_valid p q)
+    /\ forall fuel, (kl_fuel sp g p <= fuel)%nat ->
+         (forall s, C15.kl_impl sp mp mf mb fuel g wlen p <> Panic s)
+         /\ C15.kl_impl sp mp mf mb fuel g wlen p <> OutOfFuel
+         /\ (forall q, C15.kl_impl sp mp mf mb fuel g wlen p = Ok q -> kl_valid p q).
+  Proof.
+    intros sp mp mf mb g wlen p Hw Hso Hn Hwl Hu. split.
+    - destruct (C15.C15_holds sp mp mf mb g wlen p Hw Hso Hn Hwl Hu) as (q & E & L & S & _).
+      exists q. split; [exact E|]. exact (sizes_valid p q L S).
+    - intros fuel Hf.
+      split; [intros s; exact (C15.C15_no_panic sp mp mf mb fuel g wlen p s Hw Hwl Hu)|].
+      split; [exact (C15.C15_terminates sp mp mf mb fuel g wlen p Hn Hf)|].
+      intros q E. destruct (C15.C15_sizes sp mp mf mb fuel g wlen p q E) as [L S]. exact (sizes_valid p q L S).
   Qed.
 End KlC.
 
 (* ----------------------------------------------------------------- ArcSwap *)
 Module AsC.
-  Import Coupe.Model.ArcSwap Coupe.Proofs.ArcSwapAcct Coupe.Proofs.ArcSwapProgress
-         Coupe.Proofs.ArcSwapTerm Coupe.Proofs.ArcSwapSafe.
+  Import Coupe.Model.ArcSwap Coupe.Proofs.ArcSwapTerm.   (* ArcSwapTerm: step_rel only *)
   Open Scope Z_scope.
+
+  (* the fields of arc_swap's configuration, and the bound on the input ids, from the model *)
+  Lemma config_fields hr g vw p0 T cap :
+    let cf := config_of hr g vw p0 T cap in cf_g cf = g /\ cf_k cf = part_count p0.
+  Proof. unfold config_of. destruct (work_share (length p0) T). cbn. auto. Qed.
+
+  Lemma list_max_nat_ge p x : In x p -> (x <= list_max_nat p)%nat.
+  Proof.
+    unfold list_max_nat. induction p as [|y t IH]; cbn [In fold_right]; [tauto|].
+    intros [->|H]; [lia|]. specialize (IH H). lia.
+  Qed.
+
+  Lemma ids_below_part_count p0 : Forall (fun x => (x < part_count p0)%nat) p0.
+  Proof. apply Forall_forall. intros x Hx. apply list_max_nat_ge in Hx. unfold part_count. lia. Qed.
 
   (* every state reachable under ANY schedule, for any per-thread share
      function: the array keeps its length and every id is below part_count =
@@ -181,9 +214,9 @@ Module AsC.
     /\ ((1 <= list_max_nat p0)%nat -> Forall (fun x => (x <= list_max_nat p0)%nat) (g_part st)).
   Proof.
     intros hr g vw p0 T cap st0 sch st Hg Hl cf Hi Hr.
-    destruct (config_of_fields hr g vw p0 T cap) as (E1 & E2 & E3 & E4 & E5). fold cf in E1, E2, E3, E4, E5.
-    pose proof (arcswap_accounting cf p0) as S. rewrite E1, E3 in S.
-    destruct (S Hg Hl (part_count_bound p0) st0 sch st Hi Hr) as (_ & _ & A & B & _).
+    destruct (config_fields hr g vw p0 T cap) as (E1 & E3). fold cf in E1, E3.
+    pose proof (C05.C05_arcswap_accounting cf p0) as S. rewrite E1, E3 in S.
+    destruct (S Hg Hl (ids_below_part_count p0) st0 sch st Hi Hr) as (_ & _ & A & B & _).
     split; [exact A|]. split; [exact B|].
     intros Hm. rewrite Forall_forall in *. intros x Hx. specialize (B x Hx). unfold part_count in B. lia.
   Qed.
@@ -204,17 +237,17 @@ Module AsC.
       /\ length (g_part st) = length p0 /\ Forall (fun x => (x < part_count p0)%nat) (g_part st).
   Proof.
     intros g vw p0 T cap Hg Hvw Hl Hn HT cf.
-    pose proof (config_of_wf g vw p0 T cap Hg Hvw Hl Hn HT) as Hwf. fold cf in Hwf.
-    destruct (config_of_fields headroom_quot g vw p0 T cap) as (E1 & E2 & E3 & E4 & E5). fold cf in E1, E2, E3, E4, E5.
+    pose proof (C05.C05_config_of_wf g vw p0 T cap Hg Hvw Hl Hn HT) as Hwf. fold cf in Hwf.
+    destruct (config_fields headroom_quot g vw p0 T cap) as (E1 & E3). fold cf in E1, E3.
     assert (Hg' : graph_ok (cf_g cf)) by (rewrite E1; exact Hg).
     assert (Hl' : length p0 = length (cf_g cf)) by (rewrite E1; exact Hl).
-    assert (Hids : Forall (fun x => (x < cf_k cf)%nat) p0) by (rewrite E3; apply part_count_bound).
-    destruct (arcswap_no_panic cf p0 Hwf Hl' Hids) as [Hinit Hnp].
+    assert (Hids : Forall (fun x => (x < cf_k cf)%nat) p0) by (rewrite E3; apply ids_below_part_count).
+    destruct (C05.C05_arcswap_no_panic cf p0 Hwf Hl' Hids) as [Hinit Hnp].
     split; [exact Hinit|]. intros st0 sch st Hi Hr.
     split; [intros Hf; exact (Hnp st0 sch st Hi Hr Hf)|].
-    destruct (arcswap_terminates cf p0 Hg' Hl' Hids st0 sch st Hi Hr) as [A B].
+    destruct (C05.C05_arcswap_terminates cf p0 Hg' Hl' Hids st0 sch st Hi Hr) as [A B].
     split; [exact A|]. split; [exact B|].
-    split; [exact (arcswap_completes cf p0 Hg' Hwf Hl' Hids st0 sch st Hi Hr)|].
+    split; [exact (C05.C05_arcswap_completes cf p0 Hg' Hwf Hl' Hids st0 sch st Hi Hr)|].
     destruct (arcswap_ids headroom_quot g vw p0 T cap st0 sch st Hg Hl Hi Hr) as (L & R & _). split; assumption.
   Qed.
 End AsC.
